@@ -6,15 +6,16 @@ import pcommon
 from cxxheaderparser.errors import CxxParseError
 from cxxheaderparser.simple import parse_string
 
-TECHNIQUE = 'Lean 4: theorems on the line counter, #line re-basing and error locations of the lexer/stream model; per-declaration locations decided by correspondence on locations and line oracles (not a theorem)'
+TECHNIQUE = 'Lean 4: theorems on the line counter, #line re-basing and error locations of the lexer/stream model; bisimulation proof that line numbers and file names are opaque to every client program (instantiated at the parser model); per-declaration locations decided by correspondence on locations and line oracles (not a theorem)'
 LEAN_TARGET = "CxxModel.Props.C10"
 THEOREMS = ["Cxx.C10_location_is_lexer_line", "Cxx.C10_line_directive_rebases", "Cxx.C10_error_location", "Cxx.C10_countNl_append", "Cxx.C10_action_lineno",
-            "Cxx.lexer_helpers_standard"]
+            "Cxx.lexer_helpers_standard", "Cxx.C10_locations_opaque", "Cxx.C10_filename_only_in_locations", "Cxx.rloc_bisim", "Cxx.layout_sim"]
 ANCHORS = ["lexer.py:", "parser.py:", "parserstate.py:", "lex.py:Lexer.token"]
 RULE = ("programs of one-line and multi-line declarations placed on known lines, separated by arbitrary material (blank lines, "
         "multi-line comments, line comments, continuations), with #line directives at arbitrary positions, k lines prepended, and "
         "lexical errors at known lines; non-trivial = at least one declaration after a multi-line comment, continuation or #line")
 CARRIED_BY = {
+    "line numbers and file names are opaque to the parser: lexer states over the same text that differ in line counter, offset or file name give the same callbacks, payloads and final state; only locations differ": "theorems C10_locations_opaque, C10_filename_only_in_locations (rloc_bisim: a bisimulation on the real lexer-backed stream; layout_sim: every client program)",
     "a token's location is the lexer's line after it (its own line for a token without newline), re-based by #line": "theorems C10_location_is_lexer_line, C10_line_directive_rebases, C10_error_location",
     "which token a declaration's location comes from; every reported line is a token's line": "correspondence `parse[locations]` + oracle `known_lines`, `line_directive`, `prepend`, `lex_error_line` (not proof)",
 }
